@@ -575,10 +575,69 @@ class _Canon(ast.NodeTransformer):
         return n
 
 
-def _canon_dump(fnode):
-    import copy
+class _FoldConsts(ast.NodeTransformer):
+    """replace sub-expressions that fold to a number / string through the module environment by the literal"""
 
-    fn = copy.deepcopy(fnode)
+    def __init__(self, env, local_names):
+        self.env = env
+        self.local = local_names
+
+    def generic_visit(self, n):
+        from ..consteval import fold, Unknown
+
+        if isinstance(n, (ast.Name, ast.Attribute, ast.BinOp, ast.UnaryOp)) and not isinstance(getattr(n, "ctx", None), (ast.Store, ast.Del)):
+            if not (isinstance(n, ast.Name) and n.id in self.local):
+                try:
+                    v = fold(n, self.env)
+                    if isinstance(v, (int, float, str, bytes)) and not isinstance(v, bool):
+                        return ast.copy_location(ast.Constant(value=v), n)
+                except (Unknown, RecursionError, ZeroDivisionError, TypeError, ValueError):
+                    pass
+        return super().generic_visit(n)
+
+
+class _Shape(ast.NodeTransformer):
+    """erase names, constants and operators: what is left is the statement / expression structure"""
+
+    def visit_Name(self, n):
+        return ast.copy_location(ast.Name(id="_", ctx=n.ctx), n)
+
+    def visit_Constant(self, n):
+        return ast.copy_location(ast.Constant(value=0), n)
+
+    def visit_Attribute(self, n):
+        self.generic_visit(n)
+        n.attr = "_"
+        return n
+
+    def visit_BinOp(self, n):
+        self.generic_visit(n)
+        n.op = ast.Add()
+        return n
+
+    def visit_Compare(self, n):
+        self.generic_visit(n)
+        n.ops = [ast.Eq() for _ in n.ops]
+        return n
+
+    def visit_arg(self, n):
+        n.arg = "_"
+        n.annotation = None
+        return n
+
+
+def _canon_dump(fnode, shape=False):
+    import copy
+    from ..consteval import env_of
+
+    env = env_of(fnode)
+    fn = ast.parse(norm(fnode)).body[0]  # clone without parent links
+    local_names = {a.arg for a in fn.args.posonlyargs + fn.args.args + fn.args.kwonlyargs} | {x.id for x in ast.walk(fn) if isinstance(x, ast.Name) and isinstance(x.ctx, ast.Store)}
+    if env is not None:
+        fn = _FoldConsts(env, local_names).visit(fn)
+        ast.fix_missing_locations(fn)
+    if shape:
+        fn = _Shape().visit(fn)
     fn.body = [s for s in fn.body if not (isinstance(s, ast.Expr) and isinstance(s.value, ast.Constant) and isinstance(s.value.value, str))]
     fn.decorator_list = []
     fn.returns = None
@@ -611,6 +670,12 @@ def clones(ctx, repo, prop="C13", rule="CLONE"):
         da, db = _canon_dump(fa.node), _canon_dump(fb.node)
         ok = da == db
         detail = ""
+        if not ok and _canon_dump(fa.node, shape=True) != _canon_dump(fb.node, shape=True):
+            # the copies no longer have the same statement structure: one of them was restructured (guard clauses, helper
+            # extraction, loops rewritten).  That is not copy-paste drift and the two cannot be compared statement by statement.
+            ctx.note(f"{rule}: {ra}:{qa} and {rb}:{qb} differ in structure; not compared (only same-shape copies are held to agree)")
+            ctx.ob(rule, fa.where, f"{ra}:{qa} vs {rb}:{qb}: restructured copies, not compared", True)
+            continue
         if not ok:
             i = next((i for i, (x, y) in enumerate(zip(da, db)) if x != y), min(len(da), len(db)))
             sa = [s for s in fa.node.body if not (isinstance(s, ast.Expr) and isinstance(s.value, ast.Constant))]
